@@ -41,6 +41,7 @@ func checkC13(c *Ctx, r *Report) {
 	ruleNoEOFTolerance(c, r, "no-eof-tolerance")
 	ruleHeaderGuards(c, r, "header-guards")
 	ruleLoadGating(c, r, "use-after-failed-load")
+	ruleDisasmGated(c, r, "listing-gated")
 	ruleLoadErrorReturned(c, r, "load-error-returned")
 	ruleUvarintLen(c, r, "varint-length")
 	ruleVarintWrappers(c, r, "varint-wrappers", "")
